@@ -33,7 +33,7 @@ CHECKS = {
             "Trusted: Lean kernel; standard axioms; acceptor = hand-written mirror of the call sites, tied by sampled trace inclusion; float comparison of soln.x/resid with the named evaluations is a correspondence, not a theorem; "
             "init.run_in_parallel is a recorded finding.",
             "6/C03"),
-    "C04": ("Lean 4 theorems (coverage invariant over all accepted event lists: the value that would be returned dominates every evaluation made) + trace correspondence",
+    "C04": ("Lean 4 theorems (coverage invariant over all accepted event lists: the value that would be returned dominates every evaluation made; path theorems over the control-flow skeletons of the main loop and of the eight evaluating Controller methods, translated from the AST on every run: no evaluated point is dropped on any execution path) + trace correspondence",
             "Proof: for every accepted event list without averaging/regulariser ending with the OptimResults event, soln.obj is at least as good (NaN worst) as the objective of EVERY evaluation event, "
             "across soft/hard restarts and all exit routes; the acceptor enforces the Guard on writes to the incumbent's row and that no evaluated point is dropped. Real traces must be accepted.",
             "Trusted: Lean kernel; standard axioms; acceptor tied by sampled trace inclusion; regulariser case only up to rounding (search with tolerance); init.run_in_parallel is a recorded finding.",
@@ -43,9 +43,9 @@ CHECKS = {
             "Fault enumeration: every fault kind at sampled/all evaluation indices of reference runs, checked directly and against the acceptors.",
             "Trusted: Lean kernel; standard axioms; that NumPy/LAPACK never raise after a fault is enumerated, not proved; averaging: the evaluation point (mean) is the unit kept (recorded finding).",
             "6/C08"),
-    "C10": ("Lean 4 theorems (invariants of the exit/run-count acceptor over all accepted event lists) + trace correspondence",
+    "C10": ("Lean 4 theorems (invariants of the exit/run-count acceptor over all accepted event lists; path theorems over the control-flow skeleton of solve_main's main loop translated from the AST on every run; theorems decided over the generated table of all exit-creation sites) + trace correspondence",
             "Proof: nruns = entries of solve_main + successful soft restarts; max-evaluations warning => budget used up; 'maximum unsuccessful restarts' => that many runs; "
-            "'sufficiently small' => tested value <= threshold (not NaN); 'rho has reached rhoend' => rho <= rhoend. Real traces must be accepted; the six implications are searched directly.",
+            "'sufficiently small' => tested value <= threshold (not NaN); 'rho has reached rhoend' => rho <= rhoend. At the source: on EVERY execution path of the translated main loop nruns_so_far is incremented exactly once per break / soft restart and never otherwise, and every break carries an exit object. Real traces must be accepted; the six implications are searched directly.",
             "Trusted: Lean kernel; standard axioms; acceptor tied by sampled trace inclusion; 'success never with a non-finite objective' is not a theorem (recorded finding when no evaluation is finite).",
             "6/C10"),
     "C14": ("Lean 4 theorems about a model of the coordinate initialisation and the direction generators (any rounding for bounds, exact arithmetic for distances/independence) + bit-exact correspondence",
@@ -64,12 +64,12 @@ CHECKS = {
             "Real runs with projections must be accepted traces; each recorded dykstra call is replayed in Lean Float.",
             "Trusted: Lean kernel; standard axioms; user projectors are oracle values; feasibility bound is exact-arithmetic (float gap O(eps)); trace inclusion is sampled.",
             "6/C09"),
-    "C15": ("Lean 4 theorems about Dykstra's routine over arbitrary operations (sweep cap, last-set exactness, fixed point) and over real inner-product spaces (feasibility bound) + oracle/closed-language Float correspondence",
+    "C15": ("Lean 4 theorems about Dykstra's routine over arbitrary operations (sweep cap, last-set exactness, fixed point) and over real inner-product spaces (feasibility bound); theorem decided over the generated table of every dykstra call of the package (sweep budget / tolerance handed over) + oracle/closed-language Float correspondence",
             "Proof: sweeps <= max_iter, result in the last set (box) exactly for any rounding, a common point is returned unchanged, stopped-by-rule => within sqrt(p*tol) of every set. "
             "The near-optimality clause is NOT a theorem (false: kernel-checked IEEE counter-example; recorded findings). Real util.dykstra replayed bit-exactly with recorded projector outputs.",
             "Trusted: Lean kernel; standard axioms; projectors as oracles / a closed language (box, ball, half-space); stopping sum compared with 1e-12 relative tolerance (np.float64**2 is not bit-reproducible).",
             "6/C15"),
-    "C18": ("Lean 4 theorems (real-arithmetic invariants of the radius-update kernels, induction over all operation sequences) + AST-hash tie of every radius assignment + bit-exact Float correspondence with observed updates",
+    "C18": ("Lean 4 theorems (real-arithmetic invariants of the radius-update kernels, induction over all operation sequences; no-stall over every path of the translated main loop) + AST-hash tie of every radius assignment + bit-exact Float correspondence with observed updates",
             "Proof: from delta=rho=rhobeg>=rhoend>0, after any sequence of reduce_rho / ratio-class updates / geometry reductions / restarts (any ratios, norms, tau, distances): delta>=rho, rhoend<=rho<=rhobeg, rho>0; rho never increases within a run; "
             "delta<=1e10 for tau=1; reduce_rho strictly decreases rho for alpha1<1. The source of every assignment to delta/rho/rhoend is re-hashed from /repo each run; the Float kernels reproduce observed updates bit for bit.",
             "Trusted: Lean kernel; standard axioms; exact arithmetic (rounding not covered); hypothesis 1/250<=alpha1<=1; table-shape clauses are searched on real diagnostic tables, not proved.",
@@ -101,7 +101,7 @@ CHECKS = {
             "each of 8 deterministic configuration families is solved twice under different RNG states and must give bit-identical evaluation sequences and results; x0/bounds/user_params are passed read-only and compared. NOT proved: no-mutation (Python aliasing).",
             "Trusted: Lean kernel; standard axioms; determinism of CPython/NumPy/LAPACK within one process; call-site identification from the Python stack.",
             "6/C19"),
-    "C12": ("Lean 4 theorems (box clause for every input and any rounding, gnew = g + H d invariant, first-step decrease) + Lean Float port of trsbox/alt_trust_step compared with the Python under three summation variants",
+    "C12": ("Lean 4 theorems (box clause for every input and any rounding, gnew = g + H d invariant, first-step decrease, trust-region norm kept by the truncated CG step and by the rotation step over the reals - formulas tied to the source text) + Lean Float port of trsbox/alt_trust_step compared with the Python under three summation variants",
             "PARTIAL. Proved: the returned step is d_within_bounds of the unclipped step on both return paths, so xopt+d lies in [sl,su] for ANY rounding; gnew = g + H d is preserved by the CG and alt-step updates; the first CG step decreases the model. "
             "Stated, not proved: ||d|| <= delta, monotone decrease over all iterations, Cauchy decrease of the returned step - decided by the search on the property's grid (15000 quick / 150000 thorough inputs) and watched by the port correspondence (0 branch-tie skips).",
             "Trusted: Lean kernel; standard axioms; conditioning-aware comparator (tolerance 1e-7 delta); reductions in Lean are sequential sums (NumPy uses BLAS).",
